@@ -46,7 +46,10 @@ def make_op(o: int, nops: int, positions: List[int], curved: bool = True):
     if nops == 1:
         for a in range(3):
             op.chop(a, count=2 + a)
-    elif o == nops:
+    elif o == nops or (PLACEMENT.get("variant") == "B" and nops >= 3 and o == 1):
+        # (variant B, three operations: the first and the last are both chopped by the same cell size, the one between them
+        #  takes its cells from both - once a move gives them different counts the model cannot be written any more,
+        #  neither from this history nor as a fresh model)
         op.chop(0, count=2)
         # the LAST operation of the row is the only one chopped across: cells of a given first size - the count (5 on the
         # unit edges, 4 once a vertex at their near end has moved up) and the grading depend on the lengths of the edges at
